@@ -82,7 +82,7 @@ pub fn execute_sched(
     let mut rr = RunResult::new(trace_hash, violation);
     if rr.violation.is_some() && !matches!(spec, SchedSpec::Scripted { .. }) {
         let mut rw = scenario.clone();
-        rw["schedule"] = serde_json::to_value(SchedSpec::Scripted { dev: log.deviations.clone() }).unwrap();
+        rw["schedule"] = serde_json::to_value(SchedSpec::Scripted { dev: log.deviations.clone(), fair: true }).unwrap();
         rr.rewrite = Some(rw);
     }
     rr
@@ -119,7 +119,7 @@ pub fn classify(prop_id: &str, loc: &str, msg: &str) -> String {
 /// shrink candidates on the schedule: fewer deviations (scripted form only)
 pub fn shrink_schedule(scenario: &Value) -> Vec<Value> {
     let mut out = vec![];
-    if let Ok(SchedSpec::Scripted { dev }) = serde_json::from_value::<SchedSpec>(scenario["schedule"].clone()) {
+    if let Ok(SchedSpec::Scripted { dev, fair }) = serde_json::from_value::<SchedSpec>(scenario["schedule"].clone()) {
         if !dev.is_empty() {
             // all gone, halves, single drops
             let mut cands: Vec<Vec<(u32, u32)>> = vec![vec![]];
@@ -134,7 +134,7 @@ pub fn shrink_schedule(scenario: &Value) -> Vec<Value> {
             }
             for d in cands {
                 let mut c = scenario.clone();
-                c["schedule"] = serde_json::to_value(SchedSpec::Scripted { dev: d }).unwrap();
+                c["schedule"] = serde_json::to_value(SchedSpec::Scripted { dev: d, fair }).unwrap();
                 out.push(c);
             }
         }
